@@ -445,12 +445,41 @@ def decide(prop, sess, tier):
     return new, sorted(set(reported)), failed
 
 
+def esc_bytes(bs):
+    out = ""
+    for b in bs:
+        if b == 10: out += "\\n"
+        elif b == 13: out += "\\r"
+        elif b == 92: out += "\\\\"
+        elif 32 <= b < 127: out += chr(b)
+        else: out += "\\x%02x" % b
+    return out
+
+
+def replay_cex(cex, repo):
+    """run the verifier's counterexample against the real crate (replay runner), return what was observed"""
+    if not cex or cex.get("function") != "trim_cr":
+        return None
+    line = cex["line"]
+    if 10 in line or (line and line[0] == 62):
+        return dict(note="counterexample contains LF or starts with '>': cannot be embedded as one FASTA sequence line", line=line)
+    inp = ">x\\n" + esc_bytes(line) + "\\n"
+    exp = line[:-1] if line and line[-1] == 13 else line
+    r = sh([os.path.join(VERIF, "replay", "run.sh"), "--repo", repo, "fasta", "64", inp, "next"])
+    obs = [l for l in r.stdout.split("\n") if l.startswith("next ->")]
+    want = 'lines=["%s"]' % esc_bytes(exp).replace("\\", "\\\\")
+    return dict(input=inp, expected_sequence_lines=[esc_bytes(exp)], observed=obs[:2],
+                reproduced=bool(obs) and want not in obs[0])
+
+
 def replay_file(prop, sess, new):
     os.makedirs(REPLAYS, exist_ok=True)
     h = hashlib.sha256(json.dumps([[f["fn"], f["label"], f["message"], f["repo"]] for f in new], sort_keys=True).encode()).hexdigest()[:10]
     path = os.path.join(REPLAYS, "%s-%s.json" % (prop, h))
-    json.dump(dict(property=prop, kind="failed-obligations", counterexample=None,
-                   note="Verus reports no counterexample; the failed obligations below passed on the unchanged tree",
+    cexs = [f.get("counterexample") for f in new if f.get("counterexample")]
+    json.dump(dict(property=prop, kind="failed-obligations", counterexample=cexs or None,
+                   replayed_on_real_code=[replay_cex(c, sess.repo) for c in cexs] or None,
+                   note="Verus reports no counterexample; Kani counterexamples (if any) are replayed against the real crate; the failed obligations below passed on the unchanged tree",
                    tree=sess.key, checker_cmd=sess.main["cmd"],
                    failed_obligations=[dict(function=f["fn"], label=f["label"], message=f["message"], repo_location=f["repo"],
                                             clause=f["clause"], verifier_output=f["rendered"]) for f in new]),
@@ -523,7 +552,7 @@ def main():
     return rc
 
 
-KANI_QUICK = set()
+KANI_QUICK = {"C12", "C13"}
 
 
 def claimed_props():
